@@ -117,6 +117,7 @@ type bscChain struct {
 	pend         []common.Address // list carried by the last epoch header
 	head         *bsctypes.Header
 	recents      map[uint64]common.Address
+	sealers      map[uint64]common.Address // who sealed which block (never pruned): the statement's "last floor(N/2) blocks"
 	anchorSigner common.Address
 }
 
@@ -127,6 +128,10 @@ func (c *bscChain) clone() *bscChain {
 	d.recents = make(map[uint64]common.Address, len(c.recents))
 	for k, v := range c.recents {
 		d.recents[k] = v
+	}
+	d.sealers = make(map[uint64]common.Address, len(c.sealers))
+	for k, v := range c.sealers {
+		d.sealers[k] = v
 	}
 	return &d
 }
@@ -157,6 +162,14 @@ func (c *bscChain) eligible(number uint64) []*val {
 		blocked := false
 		for seen, s := range c.recents {
 			if s == a && (number < lim || seen > number-lim) {
+				blocked = true
+			}
+		}
+		// the rule as the property states it, with the set in force now: where the set has just grown, Parlia's table
+		// (pruned under the smaller window) has forgotten sealers the rule still excludes - headers sealed by them are
+		// not "valid headers" for the purposes of C18 (C09 judges that corner)
+		for k := uint64(1); k <= uint64(len(c.cur)/2) && k <= number; k++ {
+			if s, ok := c.sealers[number-k]; ok && s == a {
 				blocked = true
 			}
 		}
@@ -226,6 +239,7 @@ func (c *bscChain) anchor(rng *rand.Rand, number, ts uint64, root common.Hash, p
 	bscSeal(h, c.chainID, signer.key)
 	c.head = h
 	c.recents = map[uint64]common.Address{number: signer.addr}
+	c.sealers = map[uint64]common.Address{number: signer.addr}
 	c.anchorSigner = signer.addr
 }
 
@@ -272,6 +286,11 @@ func (c *bscChain) apply(h *bsctypes.Header) {
 		delete(c.recents, number-limit)
 	}
 	c.recents[number] = signer
+	if c.sealers == nil {
+		c.sealers = map[uint64]common.Address{}
+	}
+	c.sealers[number] = signer
+	delete(c.sealers, number-64)
 	if number%c.epoch == 0 {
 		body := h.Extra[vanityLen : len(h.Extra)-sealLen]
 		c.pend = nil
